@@ -30,8 +30,6 @@ Definition wf_bb (C : Circuit) : Prop :=
   (∀ i j d e p q, c_bbs C !! i = Some d → c_bbs C !! j = Some e → p ∈ bb_in d ∪ bb_out d → q ∈ bb_in e ∪ bb_out e → pin i p = pin j q → i = j) ∧
   (∀ inst d, c_bbs C !! inst = Some d → starts_digit inst = false ∧ prim_of_name (bb_name d) = None).
 
-(* blackbox input pins that are attached to a net *)
-Definition connected_in_pins (g : circuit) : gset string := dom (filter (λ p : string * ninfo, n_ty p.2 = BbIn ∧ n_fi p.2 ≠ ∅) g).
 (* no pin node carries an output mark (the writer would declare the pin name as a port) *)
 Definition no_pin_outputs (g : circuit) : Prop := ∀ n i, g !! n = Some i → n_ty i = BbIn ∨ n_ty i = BbOut → n_out i = false.
 
@@ -39,7 +37,7 @@ Definition no_pin_outputs (g : circuit) : Prop := ∀ n i, g !! n = Some i → n
    satisfy wf_bb (C03_roundtrip_identical_bb: blackbox instances with connected and unconnected pins, escaped instance names), both
    statements for circuits without blackboxes.  Not theorems as they stand: wf_rt alone admits the circuits excluded by wf_bb (e.g. a
    gate called ff0.x, a blackbox type called "and"), whose text the reader rejects or reads differently.
-   roundtrip_equiv with blackboxes, both styles, all constants: C03_roundtrip_equiv_bb (outputs and connected input pins). *)
+   roundtrip_equiv with blackboxes, both styles, all constants: C03_roundtrip_equiv_bb (extra hypothesis no_pin_outputs). *)
 Definition roundtrip_equiv_full : Prop := ∀ C b π m rsv,
   wf_rt C → write C b π = Ok m → list_to_set (module_ids m) ⊆ rsv →
   ∃ C', read rsv (bbdefs_of C) m = Ok C' ∧
@@ -48,10 +46,9 @@ Definition roundtrip_equiv_full : Prop := ∀ C b π m rsv,
     (∀ p, p ∈ of_type (c_g C) (is_ty BbOut) → fanout (c_g C') p = fanout (c_g C) p) ∧
     equiv_on (outputs (c_g C) ∪ of_type (c_g C) (is_ty BbIn)) (c_g C) (c_g C').
 (* the same restricted to where it can hold (wf_bb; all x constants of the original carry one value, as the reader shares one unknown).
-   Proved below: C03_roundtrip_equiv_bb = this statement with the equivalence at the outputs and the CONNECTED blackbox input pins, under the
-   extra hypothesis no_pin_outputs.  Missing for the literal statement: the equivalence at UNCONNECTED input pins (free nodes of both
-   circuits: to transfer an arbitrary value of such a node one needs that no node of the read-back circuit reads it - true, connect()
-   refuses bb_input sources, but not part of any invariant proved for the reader), and pin nodes marked as outputs *)
+   Proved below: C03_roundtrip_equiv_bb = this statement under the one extra hypothesis no_pin_outputs.  Missing for the literal statement:
+   pin nodes marked as outputs (the writer then declares the pin name as a port, the text uses a pin name as a net name, which is outside
+   the guards of C02's denotation lemmas; the identity theorem C03_roundtrip_identical_bb covers such circuits in the primitive style) *)
 Definition roundtrip_equiv_bb_full : Prop := ∀ C b π m rsv,
   wf_rt C → wf_bb C → write C b π = Ok m → list_to_set (module_ids m) ⊆ rsv →
   ∃ C', read rsv (bbdefs_of C) m = Ok C' ∧
@@ -195,8 +192,9 @@ Print Assumptions C03_roundtrip_identical_bb.
    C03_roundtrip_equiv_bbfree_x), connected and unconnected pins, escaped instance names.  For every order choice and every reserved set that
    contains the identifiers of the text the read succeeds and gives a circuit with the same name, inputs, outputs and registry; every
    blackbox input pin of the original is a bb_input node of the read-back circuit attached to the same net (or to none), every output pin
-   drives the same net (or none); and the two circuits are equivalent at every output and every connected blackbox input pin.  (An
-   unconnected input pin is an unattached free node in both circuits: there is no function to compare; see roundtrip_equiv_bb_full.)
+   drives the same net (or none); and the two circuits are equivalent at every output and every blackbox input pin (an unconnected input
+   pin is a free node of both circuits that nothing reads: invariant field q_noread of the reader's pin invariant).  This is
+   roundtrip_equiv_bb_full with the one additional hypothesis no_pin_outputs.
    Proof (Proofs/VerilogEqBbProofs.v): the written module satisfies every Prop-level guard of C02's lemmas (read_succeeds_bb_items,
    read_bb_pins_items, C02_read_denotes both directions, C02_read_io at lemma level - the gate statements through the blackbox-free shape
    lemmas on the module without its blackbox statements, the blackbox statements directly); the models of the module are the consistent
@@ -208,7 +206,7 @@ Theorem C03_roundtrip_equiv_bb : ∀ C b π m rsv,
     c_name C' = c_name C ∧ inputs (c_g C') = inputs (c_g C) ∧ outputs (c_g C') = outputs (c_g C) ∧ c_bbs C' = c_bbs C ∧
     (∀ p, p ∈ of_type (c_g C) (is_ty BbIn) → ty (c_g C') p = Some BbIn ∧ fanin (c_g C') p = fanin (c_g C) p) ∧
     (∀ p, p ∈ of_type (c_g C) (is_ty BbOut) → fanout (c_g C') p = fanout (c_g C) p) ∧
-    let S := outputs (c_g C) ∪ connected_in_pins (c_g C) in
+    let S := outputs (c_g C) ∪ of_type (c_g C) (is_ty BbIn) in
     (∀ v', consistent (c_g C') v' → ∃ v, consistent (c_g C) v ∧ (∃ x : bool, ∀ n, n ∈ of_type (c_g C) (is_ty CX) → v n = x) ∧ agrees S v v') ∧
     (∀ v, consistent (c_g C) v → (∃ x : bool, ∀ n, n ∈ of_type (c_g C) (is_ty CX) → v n = x) → ∃ w, consistent (c_g C') w ∧ agrees S w v).
 Proof.
@@ -347,7 +345,7 @@ Example C03_ex_equiv_bb_hyps : wf_rt ex_C6 ∧ wf_bb ex_C6 ∧ no_pin_outputs (c
   match write ex_C6 true ex_ord6, write ex_C6 false ex_ord6 with
   | Ok m, Ok m' => match read (list_to_set (module_ids m)) (bbdefs_of ex_C6) m, read (list_to_set (module_ids m')) (bbdefs_of ex_C6) m' with
                    | Ok C1', Ok C2' => bool_decide (c_bbs C1' = c_bbs ex_C6) && bool_decide (c_bbs C2' = c_bbs ex_C6) &&
-                                       bool_decide (fanin (c_g C1') "ff0.en" = {["k1"]}) && bool_decide (size (connected_in_pins (c_g ex_C6)) = 5)
+                                       bool_decide (fanin (c_g C1') "ff0.en" = {["k1"]}) && bool_decide (fanin (c_g C2') "\u[1].en" = ∅) && bool_decide (size (of_type (c_g ex_C6) (is_ty BbIn)) = 6)
                    | _, _ => false end
   | _, _ => false end = true.
 Proof.
